@@ -17,7 +17,28 @@ use crate::armv8 as intrinsics;
 #[cfg(any(target_arch = "x86_64", target_arch = "x86"))]
 use crate::ni as intrinsics;
 
+#[cfg(not(block_ciphers_verif))]
 cpufeatures::new!(aes_intrinsics, "aes");
+/// Verification hook (`--cfg block_ciphers_verif`): detection result can be forced to "absent" at run
+/// time so that the software arm of the unions is reachable on hosts which have AES intrinsics; the
+/// token carries the arm it was created with.
+#[cfg(block_ciphers_verif)]
+mod aes_intrinsics {
+    cpufeatures::new!(real, "aes");
+    #[derive(Copy, Clone, Debug)]
+    pub struct InitToken(bool);
+    impl InitToken {
+        #[inline(always)]
+        pub fn get(&self) -> bool {
+            self.0
+        }
+    }
+    #[inline]
+    pub fn init_get() -> (InitToken, bool) {
+        let v = real::get() && !crate::verif::FORCE_OFF.load(core::sync::atomic::Ordering::Relaxed);
+        (InitToken(v), v)
+    }
+}
 
 macro_rules! define_aes_impl {
     (
